@@ -411,6 +411,93 @@ func wrapCase(c *mon.Case, uidLen int, hid byte, mk string, rep int) {
 			}
 		}
 	}
+	extremeWraps(c, pub, euk, uid, hid, uidLen, rep)
+}
+
+// extremeWraps: the two ends of the key-length range. (1) Keys of one or two bytes: GM/T 0044.4 step A4 sends the
+// sender back to a fresh r when the derived key is all zero, which a one-byte key is once in 256 wraps; whatever was
+// drawn and computed for the discarded r must leave no trace in the (key, C) pair that is returned. Some cases look for
+// such an r beforehand (with the library's own 32-byte wrap as the probe; the KDF is a prefix function of the length)
+// and script it as the first nonce, so that every run observes forced retries; the verdict is the same as for every
+// wrap: key = reference KDF(C || e(C, de) || ID) and UnwrapKey(C) = key. (2) Keys beyond 255 KDF blocks (8160 bytes),
+// where the block counter leaves its low byte; the transcript digest makes these part of the cross-build comparison.
+func extremeWraps(c *mon.Case, pub *sm9.EncryptMasterPublicKey, euk *sm9.EncryptPrivateKey, uid []byte, hid byte, uidLen, rep int) {
+	de := euk.Bytes()[1:]
+	one := func(label string, idx int, rnd *mon.Script, klen int) {
+		var key, cip, got []byte
+		var err error
+		before := rnd.Consumed()
+		if !c.Call("WrapKey("+label+")", func() { key, cip, err = sm9.WrapKey(rnd, pub, uid, hid, klen) }) {
+			return
+		}
+		if err != nil {
+			c.Fail("reject", "WrapKey (%s, klen %d) with a working random source: %v", label, klen, err)
+			return
+		}
+		if len(key) != klen || len(cip) != 65 || cip[0] != 4 || !ref.OnCurveG1(cip[1:]) {
+			c.Fail("mismatch", "WrapKey (%s): len(key)=%d want %d; C=%x must be 04||point of G1", label, len(key), klen, cip)
+			return
+		}
+		if rnd.Consumed()-before > 32 {
+			c.Event("wrap_consumed_more_than_one_nonce/"+label, 1)
+		}
+		allZero := true
+		for _, b := range key {
+			allZero = allZero && b == 0
+		}
+		if allZero {
+			c.Fail("mismatch", "WrapKey (%s, klen %d) returned the all-zero key the standard sends back to step A2: C=%x", label, klen, cip)
+			return
+		}
+		digest(c, fmt.Sprintf("wrap-extreme/%s%d/klen%d", label, idx, klen), key, cip)
+		w := modelW(cip[1:], de)
+		c.Eq(fmt.Sprintf("WrapKey (%s): key vs reference KDF(C||w||ID, %d) with len(ID)=%d", label, klen, uidLen), key, ref.KDF(ref.Cat(cip[1:], w, uid), klen))
+		if c.Call("UnwrapKey("+label+")", func() { got, err = sm9.UnwrapKey(euk, uid, cip, klen) }) {
+			if err != nil {
+				c.Fail("reject", "UnwrapKey refuses the key wrapped just before (%s, klen %d): %v", label, klen, err)
+			} else {
+				c.Eq("UnwrapKey ("+label+")", got, key)
+			}
+		}
+		c.Event("extreme_wraps/"+label, 1)
+	}
+	rnd := script(c, "wrap-tiny", nil)
+	for t := 0; t < 6; t++ {
+		klen := 1 + t/4
+		c.Class("wrap/tiny/klen=%d/uid%%64=%d", klen, uidLen%64)
+		one("tiny", t, rnd, klen)
+	}
+	if (uidLen+rep)%16 == 5 {
+		// forced: look for a nonce whose derived key starts with a zero octet
+		probe := mon.NewRand(c.R.Uint64(), "wrap-forced-probe")
+		for try := 0; try < 1500; try++ {
+			nonce := probe.Bytes(32)
+			var key []byte
+			var err error
+			ps := mon.NewScript(nonce)
+			ps.Tail = mon.NewRand(uint64(try), "wrap-forced-probe-tail")
+			if !c.Call("WrapKey(probe)", func() { key, _, err = sm9.WrapKey(ps, pub, uid, hid, 32) }) || err != nil || len(key) != 32 {
+				return
+			}
+			if ps.Consumed() != 32 || key[0] != 0 {
+				continue
+			}
+			fs := mon.NewScript(nonce)
+			fs.Tail = mon.NewRand(c.R.Uint64(), "wrap-forced-tail")
+			c.Class("wrap/tiny/forced-retry/uid%%64=%d", uidLen%64)
+			c.Event("forced_zero_key_nonce_found", 1)
+			one("forced-retry", 0, fs, 1)
+			if fs.Consumed() <= 32 {
+				c.Event("forced_retry_not_observed", 1)
+			}
+			break
+		}
+	}
+	if (uidLen+rep)%8 == 3 {
+		klen := []int{8161, 8192 + 33, 16320 + 1, 8160 + 32*uidLen + 7}[(uidLen/8+rep)%4]
+		c.Class("wrap/long/kdf-blocks>255/uid%%64=%d", uidLen%64)
+		one("long", 0, script(c, "wrap-long", nil), klen)
+	}
 }
 
 // decryptAll runs every decrypt entry point that applies to the encoding.
@@ -519,6 +606,11 @@ func encCase(c *mon.Case, x *mon.Ctx, uidLen int, hid byte, rep int) {
 		}
 		for _, asn1 := range encs {
 			msgLen := pickMsgLen(c.R, m, (uidLen+rep+mi)%3)
+			if m == ref.XOR && (uidLen+rep)%8 == 6 {
+				// the mask needs more than 255 KDF blocks: the block counter leaves its low byte
+				msgLen = []int{8129, 8128 + 77, 16289 + uidLen}[(uidLen/8+rep)%3]
+				c.Class("enc/XOR/long/kdf-blocks>255/uid%%64=%d", uidLen%64)
+			}
 			msg := c.R.Bytes(msgLen)
 			kl := m.K1Len(msgLen) + ref.K2Len
 			enc := "raw"
